@@ -31,6 +31,17 @@ var engineAssumptions = []string{
 
 var checks = []Check{
 	{
+		ID: "C01", Title: "replies come back in request order, exactly one per request", Level: "model_checking",
+		LevelText: "stateless exploration on the real proxy stack: every pipeline of length <= 2/3 over a 10-request alphabet x every cut of its bytes into two writes (default schedule); every pipeline of length <= 2 (+ selected of length 3) under all schedules within preemption/delay/select bounds; two concurrent connections; a narrow driver of one backend client with three senders deciding per-backend FIFO pairing; a 40-request pipeline exceeding the 32-entry session queue; oracle: the received bytes parse with an independent codec into exactly one reply per request, reply k being the single-server answer to request k",
+		Technique: "preemption/delay-bounded stateless schedule exploration + exhaustive input/fragmentation enumeration on the real proxy stack",
+		Assumptions: engineAssumptions,
+		Jobs: []Job{
+			{Pkg: "proc/redis", Scenarios: []string{"C01/fragments"}, Shards: 16, QuickS: 70, ThoroughS: 600},
+			{Pkg: "proc/redis", Scenarios: []string{"C01/schedules"}, Shards: 16, QuickS: 70, ThoroughS: 600},
+			{Pkg: "proc/redis", Scenarios: []string{"C01/two-conns", "C01/backend-fifo", "C01/long-pipeline"}, Shards: 16, QuickS: 60, ThoroughS: 600},
+		},
+	},
+	{
 		ID: "C02", Title: "every request is answered exactly once, even when backends fail", Level: "model_checking",
 		LevelText: "stateless exploration of all schedules within preemption/delay/select bounds of the real goroutines: (1) one backend client with 2 senders, optional Stop and five backend behaviours, (2) the real upstream with two nodes and a concurrent host removal / replacement / stop / node reset / node down, (3) the full proxy stack with a pipeline of two and a backend connection reset before any node-side read or write; oracle at quiescence: every request completed exactly once (double completion panics), no caller parked for ever",
 		Technique: "preemption/delay-bounded stateless schedule exploration of the real goroutines under a controlled scheduler with fault injection at every network operation",
